@@ -94,7 +94,11 @@ LawsClauses(r) ==
     <<"PdfAtSupportBoundary", r.edgeok /\ r.edgesame>>,
     <<"PdfIsDerivative", PdfIsDerivative(r.dlo, r.dmid, r.dhi, r.dslope, 2)>>,
     <<"ArrayLikeKindsAgree", r.kexc = "" /\ r.kshape /\ r.krel <= KindsTolE15>>,
-    <<"NormFitMoments", r.fam = "NormFit" => r.momrel <= MomentTolE12>>
+    <<"NormFitMoments", r.fam = "NormFit" => r.momrel <= MomentTolE12>>,
+    (* vacuity guard of the overflow classes (DistLawsOps!OverflowCases): the table reaches the region  *)
+    (* where the power term of the documented density exceeds the double range; those points are judged *)
+    (* by FiniteValues / PdfMatchesDocumentedFormula / Range01 like every other grid point               *)
+    <<"UpperTailProbed", r.ext[1] = 8 => r.novf >= MinOverflowProbes>>
   >>
 
 ----------------------------------------------------------------------------
